@@ -1,5 +1,78 @@
 use vstd::prelude::*;
 use core::alloc::Layout;
 use core::num::NonZeroUsize;
-use core::ops::Range;
 use super::spec::*;
+
+broadcast use {super::lem::kernel_arith, super::lem::p2_mult};
+
+/// Every configuration `chunk::size::config::<A, S>()` can produce:
+/// overhead layout = Layout::new::<[usize; 2]>() = (16, 8); the header is
+/// `#[repr(C, align(16))] ChunkHeader<A>`: four pointers + A, so align >= 16,
+/// size >= 32 and size a multiple of align.  (Kani checks `config::<A,S>()` against this
+/// predicate for the instantiated allocator types.)
+pub open spec fn cfg_valid(c: ChunkSizeConfig) -> bool {
+    &&& valid_layout(c.assumed_malloc_overhead_layout)
+    &&& lsize(c.assumed_malloc_overhead_layout) == 16
+    &&& lalign(c.assumed_malloc_overhead_layout) == 8
+    &&& valid_layout(c.chunk_header_layout)
+    &&& lalign(c.chunk_header_layout) >= 16
+    &&& lsize(c.chunk_header_layout) >= 32
+    &&& aligned(lsize(c.chunk_header_layout), lalign(c.chunk_header_layout))
+}
+
+pub open spec fn hsize(c: ChunkSizeConfig) -> int { lsize(c.chunk_header_layout) }
+pub open spec fn halign(c: ChunkSizeConfig) -> int { lalign(c.chunk_header_layout) }
+
+/// alignment every chunk size is rounded down to
+pub open spec fn size_align(c: ChunkSizeConfig) -> int { if c.up { 16 } else { imax(16, halign(c)) } }
+
+/// smallest size hint: overhead + header
+pub open spec fn min_hint(c: ChunkSizeConfig) -> int { up(16, halign(c)) + hsize(c) }
+
+pub open spec fn size_step(c: ChunkSizeConfig) -> int { imax(0x1000, halign(c)) }
+
+/// mathematical value of calc_hint_from_capacity_bytes
+pub open spec fn hint_for_bytes(c: ChunkSizeConfig, bytes: int) -> int {
+    if c.up { up(16, halign(c)) + hsize(c) + bytes + 16 } else { up(16 + bytes, halign(c)) + hsize(c) + 16 }
+}
+
+pub open spec fn pad_for(c: ChunkSizeConfig, l: Layout) -> int { imax(lalign(l) - halign(c), 0) }
+
+pub open spec fn offset_add_layout_post(offset: usize, l: Layout, r: Option<usize>) -> bool {
+    let o = up(offset as int, lalign(l)) + lsize(l);
+    &&& r is None <==> o > umax()
+    &&& r is Some ==> r->0 as int == o
+}
+
+pub open spec fn align_size_post(c: ChunkSizeConfig, size: usize, r: usize) -> bool {
+    r as int == down(size as int, size_align(c))
+}
+
+pub open spec fn calc_hint_from_capacity_bytes_post(c: ChunkSizeConfig, bytes: usize, r: Option<usize>) -> bool {
+    &&& r is None <==> hint_for_bytes(c, bytes as int) > umax()
+    &&& r is Some ==> r->0 as int == hint_for_bytes(c, bytes as int)
+}
+
+pub open spec fn calc_hint_from_capacity_post(c: ChunkSizeConfig, l: Layout, r: Option<usize>) -> bool {
+    &&& r is None <==> hint_for_bytes(c, lsize(l) + pad_for(c, l)) > umax()
+    &&& r is Some ==> r->0 as int == hint_for_bytes(c, lsize(l) + pad_for(c, l))
+}
+
+/// C12: multiples of 16 (and of the header alignment when downwards), large enough for the
+/// header and for what the hint asked (less the 16 bytes of assumed malloc overhead),
+/// `None` exactly when the mathematical size does not fit `usize` (never wraps).
+pub open spec fn calc_size_from_hint_post(c: ChunkSizeConfig, hint: usize, r: Option<NonZeroUsize>) -> bool {
+    let h = imax(hint as int, min_hint(c));
+    &&& r is None <==> (h >= size_step(c) && up(h, size_step(c)) > umax())
+    &&& r is Some ==> {
+        let s = nz(r->0);
+        &&& aligned(s, 16)
+        &&& aligned(s, size_align(c))
+        &&& s >= h - 16
+        &&& s >= hsize(c)
+        &&& s <= umax()
+        // not absurdly larger than asked: below twice the hint, or below hint + one step
+        &&& (h < size_step(c) ==> s < 2 * h)
+        &&& (h >= size_step(c) ==> s < h + size_step(c))
+    }
+}
